@@ -336,6 +336,43 @@ pub fn main(args: &[String]) {
                 }
             }
         }
+        "tokmut" => {
+            // every single-token deletion, and every substitution / insertion of a few structural tokens, at every position of a
+            // basis of sentences in which each construct occurs in each annotation / operand position (conditionals and groups
+            // inside domains and annotations in particular: the places where the parser recovers from errors)
+            let basis = [
+                "(x : if true then int else bool) => x", "{x : if true then int else bool} => 1", "(x : (int)) => x", "(x : (a = int; a)) => x",
+                "y : (if true then int else bool) = 1; y", "y : (a = int; a) = 1; y", "(x : if true then int else bool) -> int", "{x : (int)} -> int",
+                "(if true then int else bool) -> int", "f (if true then 1 else 2) (a = 1; a)", "if (if true then true else false) then (1) else (a = 2; a)",
+                "(x : int) => (y : bool) => if y then x else (x + 1) * 2", "a = 1; b : int = a + 1; c = (d = 2; d); a + b + c",
+                "f = (x : int) => x; g = {t : type} => (v : t) => v; g (f 1)", "1 + (2 - 3) * (4 / (5)) < 6", "- (1) - - 2", "int -> (bool -> type) -> type",
+                "(x : int -> int) => x (x 1)", "a : int -> int = (x : int) => x; a", "(((1)))", "_ = 1; x = _; x",
+            ];
+            let subst = [")", "(", "then", "else", "=>", ";", "x", ":", "=", "}", "->"];
+            let mut all = vec![];
+            for b in basis {
+                let src: &'static str = crate::tj::leak(b);
+                let Ok(toks) = crate::tokenizer::tokenize(None, src) else { continue };
+                let ranges: Vec<(usize, usize)> = toks.iter().map(|t| (t.source_range.start, t.source_range.end)).collect();
+                let piece = |i: usize| &b[ranges[i].0..ranges[i].1];
+                let join = |parts: Vec<String>| parts.join(" ");
+                for i in 0..ranges.len() {
+                    all.push(join((0..ranges.len()).filter(|j| *j != i).map(|j| piece(j).to_string()).collect()));
+                    for s in subst {
+                        if piece(i) != s {
+                            all.push(join((0..ranges.len()).map(|j| if j == i { s.to_string() } else { piece(j).to_string() }).collect()));
+                        }
+                        let mut parts: Vec<String> = (0..ranges.len()).map(|j| piece(j).to_string()).collect();
+                        parts.insert(i, s.to_string());
+                        all.push(join(parts));
+                    }
+                }
+            }
+            let step = if count == 0 || count >= all.len() { 1 } else { all.len() / count };
+            for t in all.into_iter().step_by(step.max(1)) {
+                emit(t, "tokmut");
+            }
+        }
         "holeparam" => {
             // a function over two or three TYPE parameters with one value parameter whose domain is omitted (`_`) at every
             // position; the body forces the hole to be one of the type parameters; the function is applied to ground types and
